@@ -3,11 +3,9 @@
    ( | lowest; then binary * / @ (left-assoc); then unary + - ~; then call / subscript ), and an
    evaluator that applies the overloaded operators of dsl.py (Dsl/Build.v). *)
 From Coq Require Import List Bool Arith String Ascii.
-From Y0 Require Import Base.ListSet Dsl.Syntax Dsl.Text Dsl.Build.
+From Y0 Require Import Base.ListSet Dsl.Syntax Dsl.Text Dsl.Tok Dsl.Build.
 Import ListNotations.
 Open Scope string_scope.
-
-Inductive token := TName (s : string) | TSym (c : ascii).
 
 Definition is_ident_char (c : ascii) : bool :=
   let n := nat_of_ascii c in
